@@ -53,6 +53,7 @@ def plan(tier, seed):
     for i in range(2):
         shards.append({'name': 'w5_%d' % i, 'kind': 'w5', 'N': 7 if tier == 'quick' else 10,
                        'n': 24 if tier == 'quick' else 250, 'seed': seed * 1000 + 70 + i})
+    shards.append({'name': 'u64', 'kind': 'u64', 'n': 40 if tier == 'quick' else 400, 'seed': seed * 1000 + 74})
     shards.append({'name': 'ambig', 'kind': 'ambig', 'n': 60 if tier == 'quick' else 800, 'seed': seed * 1000 + 73})
     shards.append({'name': 'large', 'kind': 'large', 'sizes': [1100, 2300] if tier == 'quick' else
                    [600, 1100, 2300, 4100, 9000]})
@@ -123,6 +124,60 @@ def run_case(case, rec, ssj=None, views=None):
     return stats
 
 
+KNOWN_U64 = 'uint64-keys-concat-float'
+
+
+def u64_case(case, rec, ssj):
+    """Keys of dtype uint64 with values on both sides of 2**63.  Open finding F14: when the result is
+    assembled with pd.concat from parts whose key columns were inferred as int64 (all keys below
+    2**63) and uint64, pandas upcasts the column to float64 and the ids beyond 2**53 are no longer
+    the ids of any row.  Exactly that mechanism is classified (known); everything else is judged."""
+    rng = random.Random(case['seed'])
+    words = ['a', 'b', 'c', 'd', 'e', 'f']
+    out = []
+    for side in 'lr':
+        n = rng.randint(2, 8)
+        pool = [2 ** 63 + k for k in range(-3, 12)] + [1, 2, 3, 5, 2 ** 64 - 1, 2 ** 62]
+        keys = rng.sample(pool, n)
+        vals = [None if rng.random() < 0.12 else ' '.join(rng.sample(words, rng.randint(1, 4))) for _ in range(n)]
+        out.append(T.table_spec(['id', 's'], [[k, v] for k, v in zip(keys, vals)], dtypes={'id': 'uint64', 's': 'object'}))
+    L, R = out
+    api = rng.choice(['jaccard_join', 'cosine_join', 'dice_join', 'overlap_coefficient_join', 'overlap_join'])
+    call = {'api': api, 'ltable': L, 'rtable': R, 'l_key': 'id', 'r_key': 'id', 'l_attr': 's', 'r_attr': 's',
+            'tok': {'kind': 'ws', 'return_set': True}, 'threshold': 1 if api == 'overlap_join' else rng.choice([0.3, 0.5, 1.0]),
+            'comp_op': '>=', 'allow_missing': rng.random() < 0.4, 'n_jobs': rng.choice([1, 1, 2, 3]),
+            'out_sim_score': True, 'warm': None, 'positional': False}
+    try:
+        df = T.exec_call(ssj, call)
+    except Exception as e:
+        rec.add('raised', '%s: %s' % (type(e).__name__, str(e)[:80]))
+        return 0
+    rec.count('u64_cases')
+    import numpy as np
+    floaty = [c for c in ('l_id', 'r_id') if str(df[c].dtype).startswith('float') or
+              any(isinstance(v, (float, np.floating)) for v in df[c].tolist())]
+    assembled = call['n_jobs'] > 1 or call['allow_missing']
+    if floaty and len(df):
+        lk = set(L['data']['id'])
+        rk = set(R['data']['id'])
+        bad = [(a, b) for a, b in zip(df['l_id'].tolist(), df['r_id'].tolist())
+               if not (a in lk and float(a) == a and int(a) in lk and b in rk and int(b) in rk)]
+        lossy = any(isinstance(v, (float, np.floating)) and v >= 2 ** 53 for c in floaty for v in df[c].tolist())
+        if lossy:
+            rec.violation('keys', '%s(n_jobs=%d, allow_missing=%r): key column(s) %s of the result are float64; '
+                          'ids such as %r are not ids of any input row (input keys are uint64 on both sides '
+                          'of 2**63)' % (api, call['n_jobs'], call['allow_missing'], floaty,
+                                         [v for c in floaty for v in df[c].tolist()
+                                          if isinstance(v, (float, np.floating)) and v >= 2 ** 53][:2]),
+                          case=case, known_key=KNOWN_U64 if assembled else None)
+            return 1
+    view = oracle.TableView(call)
+    stats = oracle.check_set_join(df, call, T.JOIN_MEASURE[api], rec, DECIDE, view=view, case=case)
+    for k, v in stats.items():
+        rec.count(k, v)
+    return stats.get('scores_checked', 0) + 1
+
+
 def run_shard(shard, rec):
     ssj = env.load()
     monitors.import_repo_modules()
@@ -163,6 +218,13 @@ def run_shard(shard, rec):
         rec.sample({'workload': 'NM', 'measure': m, 'threshold': t, 'N': shard['N'],
                     'note': 'per (a,b): one exactly qualifying pair and one pair one token short'},
                    limit=1)
+    elif kind == 'u64':
+        for i in range(shard['n']):
+            case = {'gen': 'u64', 'seed': shard['seed'] * 100000 + i}
+            st = u64_case(case, rec, ssj)
+            rec.case(sig=('u64', case['seed']), nontrivial=st > 0)
+        rec.sample({'workload': 'U64', 'note': 'unsigned 64-bit keys at and beyond 2**63 (hash ids), n_jobs 1/2/3, '
+                    'allow_missing on/off'}, limit=1)
     elif kind == 'ambig':
         for i in range(shard['n']):
             case = {'gen': 'ambig', 'seed': shard['seed'] * 100000 + i}
